@@ -50,6 +50,14 @@ case "${1:-}" in
                 /verif/.target$dir/release/mc check C18 "$tier"
             r=$?
             [ $r -gt $rc ] && rc=$r
+            # whole families of other properties on this build, for their outcome sets only
+            # (oracles off; quick cases of the family in both tiers)
+            if [ "$tier" = thorough ]; then fams="C17 C02 C04 C13"; else fams="C17"; fi
+            for fam in $fams; do
+                VERIF_OUTCOMES_ONLY=1 VERIF_NO_REAL=1 VERIF_EXPORT_FILE=/verif/.target/c18-$rt-export-$fam.json VERIF_EVIDENCE_FILE=/verif/.target/c18-$rt-evidence-$fam.json \
+                    /verif/.target$dir/release/mc check "$fam" quick >/verif/.target/c18-$rt-$fam.log 2>&1 \
+                    || { echo "MACHINERY-ERROR: family $fam could not be explored on $rt" >&2; tail -3 /verif/.target/c18-$rt-$fam.log >&2; exit 2; }
+            done
         done
         [ $rc -ge 2 ] && exit 2
         /verif/.target/release/mc c18-compare "$tier"
